@@ -12,6 +12,7 @@ INVARIANT WF
 INVARIANT MetaTruthful
 INVARIANT NoPlacementColumnError
 INVARIANT IllRejected
+INVARIANT ProcessedBaseSound
 INVARIANT EmitState
 PROPERTY LockedKept
 PROPERTY MatsKept
